@@ -265,6 +265,20 @@ impl<'a, T: IteTable<'a, BddPtr<'a>> + Default> RobddBuilder<'a, T> {
             return bdd;
         }
 
+        // a node that sits below the current level (or a constant) skips this
+        // level: insert a don't-care node for the skipped variable
+        let at_current_level = match bdd {
+            BddPtr::Reg(node) | BddPtr::Compl(node) => {
+                self.order.borrow().get(node.var) == current
+            }
+            BddPtr::PtrTrue | BddPtr::PtrFalse => false,
+        };
+        if !at_current_level {
+            let var = self.order.borrow().var_at_level(current);
+            let sub = self.smooth_helper(bdd, current + 1, total);
+            return self.get_or_insert(BddNode::new(var, sub, sub));
+        }
+
         match bdd {
             BddPtr::Reg(node) => {
                 let smoothed_node = BddNode::new(
